@@ -3,7 +3,7 @@
 Two kinds of runs, both operation sequences against a reference list of instance fingerprints
 (rlsim/ref/data.py):
 
-* ``generic``: scheduled instances with mixed dtypes (float32 / int64 / bool) and field shapes are
+* ``generic``: scheduled instances with mixed dtypes (float32/64/16, int64/32, uint8, bool) and field shapes are
   wrapped into one of the bundled dataset classes; a chooser-scheduled sequence of operations follows:
   read through a ``DataLoader`` with the data set's ``collate_fn`` (unshuffled, shuffled with a seeded
   generator, shuffled from the global RNG, explicit sampler order) or through the Lightning module's
@@ -33,7 +33,8 @@ CLASSES = ["TensorDictDataset", "FastTdDataset", "TensorDictDatasetFastGeneratio
 LOAD_MODES = ["seq", "shuffle_gen", "shuffle_global", "sampler", "sampler", "lit_single", "lit", "lit_dict"]
 BASE_ENVS = ["tsp", "cvrp", "sdvrp", "op", "pctsp"]
 BASELINES = ["rollout_only", "rollout", "rollout", "warmup2"]
-_DT = {"float32": torch.float32, "int64": torch.int64, "bool": torch.bool}
+_DT = {"float32": torch.float32, "int64": torch.int64, "bool": torch.bool, "float64": torch.float64,
+       "float16": torch.float16, "int32": torch.int32, "uint8": torch.uint8}
 
 
 def _cls(name):
@@ -114,7 +115,7 @@ class C17:
     level = "exploration"
     chunk = 8
     rule = ("run = one operation sequence against a reference list of instance fingerprints.  generic "
-            "runs (about 60%): 1-13 scheduled instances with 2-5 fields of mixed dtype (float32/int64/"
+            "runs (about 60%): 1-13 scheduled instances with 2-5 fields of mixed dtype (float16/32/64, int32/64, uint8, "
             "bool) and shape, one of the three bundled dataset classes (ExtraKeyDataset arises from "
             "add_key), 3-7 chooser-scheduled operations out of {read through a loader in one of 7 modes "
             "with a scheduled batch size (1, dividing, not dividing, >= N) for 1-3 epochs, add_key with "
@@ -164,7 +165,7 @@ class C17:
             k = rc.randint(2, 5)
             fields = []
             for j in range(k):
-                dt = rc.choice(["float32", "float32", "int64", "bool"])
+                dt = rc.choice(["float32", "float32", "int64", "bool", "float64", "float64", "float16", "int32", "uint8"])
                 shape = rc.choice([[], [1], [3], [4, 2], [2, 3], [5]])
                 fields.append({"name": f"f{j}_{dt}", "dtype": dt, "shape": shape})
             if rc.random() < 0.8:  # a unique id so that no two instances coincide
@@ -180,6 +181,14 @@ class C17:
                         vals = [ri.choice([ri.random(), ri.uniform(-1e3, 1e3), 0.0, -0.0, 1e-30]) for _ in range(cnt)]
                     elif f["dtype"] == "int64":
                         vals = [ri.choice([ri.randint(-5, 5), ri.randint(-2**40, 2**40), 2**53 + 1]) for _ in range(cnt)]
+                    elif f["dtype"] == "float64":  # values a float32 cannot hold: a silent down-cast changes them
+                        vals = [ri.choice([ri.random(), 1.0 + 2.0 ** -40, 1e300, -1e-300, 0.1]) for _ in range(cnt)]
+                    elif f["dtype"] == "float16":
+                        vals = [ri.choice([0.5, -2.0, 1024.0, 0.0999755859375, 0.0]) for _ in range(cnt)]
+                    elif f["dtype"] == "int32":
+                        vals = [ri.choice([ri.randint(-5, 5), 2**31 - 1, -2**31]) for _ in range(cnt)]
+                    elif f["dtype"] == "uint8":
+                        vals = [ri.randint(0, 255) for _ in range(cnt)]
                     else:
                         vals = [ri.random() < 0.5 for _ in range(cnt)]
                     row[f["name"]] = torch.tensor(vals, dtype=_DT[f["dtype"]]).reshape(f["shape"])
@@ -416,7 +425,7 @@ def _generic(run):
             live = ref.extra_keys()
             if live and key not in live:
                 key = live[0]  # a single extra key name at a time
-            kind = run.chooser.pick(4)
+            kind = run.chooser.pick(5)
             g = torch.Generator().manual_seed(run.streams.torch_seed(f"extra-{step}"))
             if kind == 0:
                 val = torch.randn(n, generator=g)
@@ -424,6 +433,8 @@ def _generic(run):
                 val = torch.randn(n, 2, generator=g)
             elif kind == 2:
                 val = torch.randint(-9, 9, (n,), generator=g)
+            elif kind == 4:
+                val = torch.randn(n, generator=g, dtype=torch.float64) * 1e3 + 2.0 ** -40
             else:
                 val = torch.arange(n, dtype=torch.float32) * 0.5 - 1.0
             with run.guard(type(ds).__name__, f"add_key('{key}')", n=n, key=key):
